@@ -143,6 +143,35 @@ func (j JM) MarshalJSON() ([]byte, error) {
 }
 
 // pointer-receiver types (stored by pointer only)
+// PVS, PVE, PVG declare their text methods on the POINTER receiver only; held by value they have none of them and
+// are "anything else".
+type PVS struct {
+	A int
+	B string
+}
+
+func (p *PVS) String() string { return "String() of the pointer" }
+
+type PVE struct {
+	A int
+	B string
+}
+
+func (p *PVE) Error() string { return "Error() of the pointer" }
+
+type PVG struct {
+	A int
+	B string
+}
+
+func (p *PVG) GoString() string { return "GoString() of the pointer" }
+
+// Omit encodes as {} or as an object depending on its VALUE (all fields omitempty).
+type Omit struct {
+	Soft int    `json:"soft,omitempty"`
+	Note string `json:"note,omitempty"`
+}
+
 type PS struct{ St *St }
 
 func (p *PS) String() string { return p.St.S }
@@ -280,6 +309,17 @@ func Materialise(it Item) *Live {
 			l.V = &PE{l.St}
 		default:
 			l.V = &PGH{l.St}
+		}
+	case "omit":
+		l.V = Omit{int(it.N), string(it.S)}
+	case "pval":
+		switch ((it.N % 3) + 3) % 3 {
+		case 0:
+			l.V = PVS{int(it.N), string(it.S)}
+		case 1:
+			l.V = PVE{int(it.N), string(it.S)}
+		default:
+			l.V = PVG{int(it.N), string(it.S)}
 		}
 	case "fmtr":
 		l.V = Fmtr(uint32(it.N))
